@@ -548,6 +548,9 @@ class Unit:
         self.rewrites = {}
         self.lemmas = []        # (name, props, line)
         self.sources = set()
+        self.lenient = bool(os.environ.get('VERIF_LENIENT'))
+        self.force_assume = set(x for x in os.environ.get('VERIF_ASSUME_FNS', '').split(',') if x)
+        self.assumed = []
 
     def read_repo(self, rel):
         p = os.path.join(self.repo, rel)
@@ -697,6 +700,52 @@ class Unit:
                 raise ExtractError('spec text before a section in fn ' + name + ': ' + s)
             sect.append(l)
             i += 1
+        # emit the function; if its text can no longer be brought under its contract (lost anchor, lost loop, rewrite
+        # mismatch) or the runner asked for it (front-end rejection inside this body), fall back to an ASSUMED copy:
+        # signature + contract, body external -- its clauses become *undecided*, the rest of the unit is still verified.
+        forced = name in self.force_assume or (opts.get('as') in self.force_assume)
+        mark = (len(self.out), len(self.clauses), len(self.functions), self._partial)
+        try:
+            if forced: raise ExtractError('assumed at the runner\'s request')
+            self._emit_fn(file, name, opts, resname, spec)
+        except ExtractError as e:
+            if not self.lenient and not forced: raise
+            del self.out[mark[0]:]; del self.clauses[mark[1]:]; del self.functions[mark[2]:]; self._partial = mark[3]
+            self._emit_assumed(file, name, opts, resname, spec, str(e))
+        return i
+
+    def _emit_assumed(self, file, name, opts, resname, spec, why):
+        src = self.read_repo(file)
+        f = find_fn(src, name, opts.get('impl'))
+        sig = strip_attrs(f['sig'])
+        sig = sig.replace('&mut dyn Storage', '&mut Storage').replace('&dyn Storage', '&Storage').replace('&dyn Api', '&Api')
+        sig = re.sub(r'pub\s*\(crate\)\s*', 'pub ', sig)
+        if opts.get('as'): sig = re.sub(r'\bfn\s+' + re.escape(name) + r'\b', 'fn ' + opts['as'], sig, count=1)
+        for rid, pat, rep, count in spec['rewrites']:
+            if rid.startswith('P'): continue
+            sig = re.sub(pat, rep, sig, flags=re.S)
+        smk = mask(sig); am = None
+        for mm in re.finditer(r'->', smk):
+            pre = smk[:mm.start()]
+            if pre.count('(') == pre.count(')'): am = mm
+        if am: sig = sig[:am.start()] + '-> (%s: %s)' % (resname, sig[am.end():].strip())
+        oname = opts.get('as') or name
+        fnrec = dict(kind='fn', name=oname, src_name=name, file=file, lines=f['lines'], impl=opts.get('impl'), assumed=True, assumed_why=why)
+        self.functions.append(fnrec); self.assumed.append(oname); self.rewrites[oname] = Counter()
+        if opts.get('impl'): self.out.append('impl %s {' % opts['impl'])
+        fnrec['sig_line0'] = len(self.out) + 1
+        self.out.append('#[verifier::external_body]')
+        self.emit(sig.rstrip())
+        if spec['requires']:
+            self.out.append('    requires'); self.emit_tagged(spec['requires'], 'requires', oname)
+        if spec['ensures']:
+            self.out.append('    ensures'); self.emit_tagged(spec['ensures'], 'ensures', oname)
+        fnrec['out_line0'] = len(self.out) + 1
+        self.out.append('{ unimplemented!() }')
+        fnrec['out_line1'] = len(self.out)
+        if opts.get('impl'): self.out.append('}')
+
+    def _emit_fn(self, file, name, opts, resname, spec):
         src = self.read_repo(file)
         f = find_fn(src, name, opts.get('impl'))
         cnt = Counter()
@@ -824,7 +873,6 @@ class Unit:
         fnrec['out_line1'] = len(self.out)
         if opts.get('impl'):
             self.out.append('}')
-        return i
 
     _partial = ''
     def emit_raw(self, text):
@@ -857,9 +905,11 @@ class Unit:
             c.line1 = max(c.line1, j)
 
 
-def build_unit(name, repo, verif, outdir):
+def build_unit(name, repo, verif, outdir, lenient=False, force_assume=()):
     _loop_id[0] = 0
     u = Unit(name, repo, verif)
+    if lenient: u.lenient = True
+    u.force_assume |= set(force_assume)
     text = u.build(os.path.join(verif, 'units', name + '.vrs'))
     u.finish_clause_ranges()
     os.makedirs(outdir, exist_ok=True)
@@ -868,7 +918,7 @@ def build_unit(name, repo, verif, outdir):
     open(tmp, 'w').write(text)
     os.replace(tmp, path)            # atomic: a concurrent check never reads a half-written unit
     meta = dict(unit=name, path=path, clauses=[c.to_json() for c in u.clauses], functions=u.functions,
-                rewrites={k: dict(v) for k, v in u.rewrites.items()}, lemmas=u.lemmas, sources=sorted(u.sources))
+                rewrites={k: dict(v) for k, v in u.rewrites.items()}, lemmas=u.lemmas, sources=sorted(u.sources), assumed=u.assumed)
     mp = os.path.join(outdir, name + ('_probe' if os.environ.get('VERIF_PROBE') else '') + '.meta.json')
     json.dump(meta, open(mp + '.%d.tmp' % os.getpid(), 'w'), indent=1)
     os.replace(mp + '.%d.tmp' % os.getpid(), mp)
